@@ -101,7 +101,16 @@ func GenForeign(r *rand.Rand, j int) ForeignSpec {
 	}
 	s.Members = append(s.Members, ForeignMember{Rel: "", Dir: true, Mode: 0o755})
 	dirs := []string{""}
+	// an archive padded by an odd number of blocks cannot be represented by the model's tape (no
+	// item of one zero block), so nothing the model would have to explain is generated there:
+	// plain names only, none of them repeated along a path
+	safe := s.Pad%2 == 1
+	safeN := 0
 	nameOf := func() string {
+		if safe {
+			safeN++
+			return fmt.Sprintf("%s%d", []string{"a", "b", "c", "f", "x", "y"}[r.Intn(6)], safeN)
+		}
 		switch r.Intn(12) {
 		case 0:
 			if s.Format != tar.FormatUSTAR {
@@ -118,7 +127,7 @@ func GenForeign(r *rand.Rand, j int) ForeignSpec {
 		return []string{"a", "b", "c", "docs", "f1", "f2", "img", "src", "lib", "x", "y", ".profile", "profile", ".env", "Docs", "rel_1", "rel-1", "100%", "100x"}[r.Intn(19)]
 	}
 	have := map[string]bool{"": true}
-	if j%7 == 6 {
+	if j%7 == 6 && !safe {
 		// sibling directories whose names SQLite's LIKE does not tell apart (ASCII case, the
 		// wildcards _ and %), each with a child of its own
 		pair := [][2]string{{"Docs", "docs"}, {"rel_1", "rel-1"}, {"100%", "100x"}}[r.Intn(3)]
